@@ -222,8 +222,41 @@ package client
 //@ pred fundPropDecoded(p *VirtualChannelFundingProposalMsg) = p != nil && updDecoded(&p.ChannelUpdateMsg) && signedDecoded(p.Initial)
 //@ pred settlePropDecoded(p *VirtualChannelSettlementProposalMsg) = p != nil && updDecoded(&p.ChannelUpdateMsg) && signedDecoded(p.Final)
 
+// sigsVerified: every signature slot verifies for the state against every address of the participant at that position.
+//@ pred sigsVerified(p *channel.Params, s *channel.State, sigs []wallet.Sig) =
+//@   forall i int :: 0 <= i && i < len(sigs) ==> forall b wallet.BackendID :: has(p.Parts[i], b) ==> verifyOK(p.Parts[i][b], s, sigs[i])
+
+// lockedPlus(old, new, id, sums-of, indexMap): new is old followed by exactly one entry {id, per-asset totals of st, indexMap}.
+//@ pred lockedPlus(o []channel.SubAlloc, n []channel.SubAlloc, id channel.ID, st *channel.State, m []channel.Index) =
+//@   len(n) == len(o) + 1 && (forall k int :: 0 <= k && k < len(o) ==> subAllocEq(n[k], o[k])) &&
+//@   n[len(o)].ID == id && idxMapEq(n[len(o)].IndexMap, m) && len(n[len(o)].Bals) == len(st.Balances) &&
+//@   forall a int :: 0 <= a && a < len(st.Balances) ==> val(n[len(o)].Bals[a]) == allocSum(st.Allocation, a)
+
+// movedBy(cur, new, virt, m, sign): every parent participant's balance changes by sign times the balance of the virtual
+// channel participant mapped to it (last position wins when several map to the same parent index; none: unchanged).
+//@ pred movedBy(cur channel.Balances, n channel.Balances, virt channel.Balances, m []channel.Index, sign int) =
+//@   sameDims(cur, n) && len(virt) == len(cur) &&
+//@   (forall a, p int :: 0 <= a && a < len(cur) && 0 <= p && p < len(m) && lastOcc(m, p, len(m)) ==> val(n[a][m[p]]) == val(cur[a][m[p]]) + sign * val(virt[a][p])) &&
+//@   (forall a, q int :: 0 <= a && a < len(cur) && 0 <= q && q < len(cur[a]) && unmapped(m, q, len(m)) ==> val(n[a][q]) == val(cur[a][q]))
+
+// fundingOK: what the statement of C07 demands of an automatically accepted virtual channel funding update.
+//@ pred fundingOK(ch *Channel, prop *VirtualChannelFundingProposalMsg) =
+//@   prop.Initial.Params.id == prop.Initial.State.ID && prop.Initial.Params.VirtualChannel && len(prop.Initial.State.Locked) == 0 &&
+//@   len(prop.Initial.Params.Parts) == len(prop.Initial.State.Balances[0]) && len(prop.Initial.Sigs) == len(prop.Initial.Params.Parts) &&
+//@   sigsVerified(prop.Initial.Params, prop.Initial.State, prop.Initial.Sigs) &&
+//@   len(prop.IndexMap) == len(prop.Initial.Params.Parts) && (forall k int :: 0 <= k && k < len(prop.IndexMap) ==> prop.IndexMap[k] < len(chanState(ch).Balances[0])) &&
+//@   !lockedHas(chanState(ch).Locked, prop.Initial.Params.id) &&
+//@   lockedPlus(chanState(ch).Locked, prop.State.Locked, prop.Initial.Params.id, prop.Initial.State, prop.IndexMap) &&
+//@   assetsEq(chanState(ch).Assets, prop.Initial.State.Assets) && backendsEq(chanState(ch).Backends, prop.Initial.State.Backends) &&
+//@   movedBy(chanState(ch).Balances, prop.State.Balances, prop.Initial.State.Balances, prop.IndexMap, 0 - 1)
+
 //@ func (*Client).validateVirtualChannelFundingProposal
 //@   requires c != nil && chanWF(ch) && fundPropDecoded(prop)
+//@   ensures result == nil ==> fundingOK(ch, prop)
+//@   loop 1
+//@     invariant forall k int :: 0 <= k && k < $i ==> forall b wallet.BackendID :: has(prop.Initial.Params.Parts[k], b) ==> verifyOK(prop.Initial.Params.Parts[k][b], prop.Initial.State, prop.Initial.Sigs[k])
+//@   loop 2
+//@     invariant 0 <= i && i < len(prop.Initial.Sigs) && sig == prop.Initial.Sigs[i] && forall b wallet.BackendID :: visited(b) ==> verifyOK(prop.Initial.Params.Parts[i][b], prop.Initial.State, sig)
 
 //@ func (*Client).validateVirtualChannelSettlementProposal
 //@   requires c != nil && chanWF(parent) && settlePropDecoded(prop)
